@@ -86,6 +86,66 @@ def iter_rule(sc, crate, b, v, bs):
     return out, ob
 
 
+RESULT_COMBINATORS = {"map_err", "or_else", "and_then", "ok_or_else", "map_or_else", "unwrap_or_else", "map"}
+
+
+def collapsed_in_closures(sc):
+    """A closure with a collapsed report site returns the stopped error to the combinator that called it
+    (`r.map_err(|e| take_cf_content(E::merge(None, e, loc)))`).  Whatever the error type answered - Break included - the
+    code after the combinator sees only `Err(e)`: on that path it must return without examining anything, exactly as
+    after a collapsed site written in the function itself.  Followed outwards through nested closures."""
+    from analysis import View, strip_refs, erase_generics
+    from lin import Finding
+
+    class _S:
+        bb = -1
+    out = []
+    ob = 0
+    members = {(c.name, b.path): (c, b) for c, b, _r in sc.members}
+    yields = []   # closures whose result may be a collapsed stop
+    for c, b, role in sc.members:
+        if b.kind != "Closure":
+            continue
+        bs = BodySites(sc.view(c, b))
+        if any(s_.handling == "collapsed" for s_ in bs.sites):
+            yields.append((c, b))
+    seen = set()
+    while yields:
+        c, b = yields.pop()
+        if b.path in seen:
+            continue
+        seen.add(b.path)
+        parent_path = b.path.rsplit("::{closure", 1)[0]
+        pc_pb = members.get((c.name, parent_path))
+        if pc_pb is None:
+            pb = next((x for x in c.bodies if x.path == parent_path), None)
+            if pb is None:
+                continue
+            pc, pv = c, View(pb)
+        else:
+            pc, pb = pc_pb
+            pv = sc.view(pc, pb)
+        pbs = BodySites(pv)
+        for bb, cc in pv.calls():
+            if cc.fn is None or cc.name not in RESULT_COMBINATORS or not (cc.path or "").startswith(("std::result::Result", "std::option::Option")):
+                continue
+            t = pv.origin_call(bb)
+            if not any(strip_refs(a) and strip_refs(a)[0] == "agg" and strip_refs(a)[1] == "closure" and len(strip_refs(a)) > 3 and strip_refs(a)[3] == b.path for a in t[3]):
+                continue
+            tm = pv.blocks[bb]["term"]
+            dest = tm["dest"]
+            if dest["p"] or tm.get("target") is None or not pc.tys(dest["ty"]).startswith("std::result::Result<"):
+                continue
+            ob += 1
+            fs = flow.check_stop_region(pv, pbs, tm["target"], _S(), "C03.STOP",
+                                        "after the unconditional stop inside the closure given to %s" % cc.name,
+                                        [dest["l"]], lambda x, _bb=bb: x[0] == "call" and x[1] == _bb, known0={dest["l"]: "Err"})
+            out += fs
+            if not fs and pb.kind == "Closure":
+                yields.append((pc, pb))     # the error travels on through this closure's own result
+    return out, ob
+
+
 def run(ctx):
     res = PropResult("C03")
     res.level = "proof"
@@ -107,6 +167,10 @@ def run(ctx):
             if b.kind == "Closure" and bs.sites:
                 fs_i, ob_i = iter_rule(sc, c, b, v, bs)
                 res.add("C03.ITER", ob_i, fs_i)
+        # C03.STOP across closures: a closure that collapses an answer (take_cf_content: Break and Continue alike) hands an error
+        # to whoever called the combinator it was given to; that caller must treat it as a stop
+        fs_c, ob_c = collapsed_in_closures(sc)
+        res.add("C03.STOP", ob_c, fs_c)
     import controls
     controls.run(ctx, res, "C03", lambda crate, b, v, bs: flow.c03_rules(v, bs)[0])
     builtin_break(ctx, res)
